@@ -393,17 +393,29 @@ func (f *Frame) prepare() {
 
 func instrKind(ins ssa.Instruction) string {
 	switch x := ins.(type) {
-	case *ssa.IndexAddr, *ssa.Index:
-		return "index"
+	case *ssa.IndexAddr:
+		return "index[" + shortTypeName(x.X.Type()) + "]"
+	case *ssa.Index:
+		return "index[" + shortTypeName(x.X.Type()) + "]"
 	case *ssa.Slice:
 		return "slice"
 	case *ssa.Lookup:
 		return "lookup"
 	case *ssa.FieldAddr:
+		// keyed by the accessed field, so that unrelated insertions do not renumber it
+		if pt, ok := x.X.Type().Underlying().(*types.Pointer); ok {
+			if st, ok := pt.Elem().Underlying().(*types.Struct); ok {
+				tn := "struct"
+				if n, ok := pt.Elem().(*types.Named); ok {
+					tn = n.Obj().Name()
+				}
+				return "nil[" + tn + "." + st.Field(x.Field).Name() + "]"
+			}
+		}
 		return "nil"
 	case *ssa.UnOp:
 		if x.Op == token.MUL {
-			return "deref"
+			return "deref[" + shortTypeName(x.Type()) + "]"
 		}
 		if x.Op == token.ARROW {
 			return "recv"
@@ -1120,4 +1132,8 @@ func isConstOrParam(v ssa.Value) bool {
 		return true
 	}
 	return false
+}
+
+func shortTypeName(t types.Type) string {
+	return sanitize(types.TypeString(t, func(p *types.Package) string { return p.Name() }))
 }
